@@ -243,7 +243,7 @@ class InterpretedFunctionsRemover(engines.engine.Engine, CompilerMixin):
                 if_known[ifun] = []
             if ifun not in new_fluents:
                 f_name = get_fresh_name(new_problem, f"_f_{ifun.name}")
-                f = Fluent(f_name, ifun.return_type, p=kNum)
+                f = Fluent(f_name, ifun.return_type, environment=env, p=kNum)
                 new_fluents[ifun] = f
                 default_value = self._default_value_given_type(
                     ifun.return_type, problem
@@ -274,7 +274,7 @@ class InterpretedFunctionsRemover(engines.engine.Engine, CompilerMixin):
         changing_fluents = self._find_changing_fluents(problem)
         for f in changing_fluents:
             new_f_name = get_fresh_name(new_problem, f"_{f.name}_is_unknown")
-            new_f = Fluent(new_f_name, env.type_manager.BoolType())
+            new_f = Fluent(new_f_name, env.type_manager.BoolType(), environment=env)
             new_problem.add_fluent(new_f, default_initial_value=False)
             new_problem.set_initial_value(new_f, em.FALSE())
             is_unknown_fluents[f] = new_f
